@@ -99,7 +99,7 @@ fn feed(fd: RawFd, buf: &[u8]) {
     _ => { crate::engine::HARNESS_FAULTS.fetch_add(1, std::sync::atomic::Ordering::Relaxed); }
   }
 }
-impl Drop for Pipes { fn drop(&mut self) { for fd in [self.kbd_r, self.kbd_w, self.tab_r, self.tab_w, self.out_r, self.out_w] { if fd >= 0 { let _ = close(fd); } } } }
+impl Drop for Pipes { fn drop(&mut self) { crate::sysseam::clear(self.kbd_r); crate::sysseam::clear(self.tab_r); for fd in [self.kbd_r, self.kbd_w, self.tab_r, self.tab_w, self.out_r, self.out_w] { if fd >= 0 { let _ = close(fd); } } } }
 
 /// A foreign record: something a real evdev node emits that the reader must skip.
 pub fn foreign_record(sel: u64, arg: u64, stats: &mut WireStats, tablet: bool) -> Vec<u8> {
@@ -200,6 +200,9 @@ impl ByteLayer for PipeLayer {
   fn register(&mut self) -> Result<(), String> { self.drv.register_poll() }
   fn poll_now(&mut self) -> Result<Option<Vec<VDevice>>, String> {
     match self.drv.poll_now()? { VPoll::Devices(ds) => Ok(Some(ds)), VPoll::TimedOut => Ok(None), VPoll::Interrupted => Err("the real poll was interrupted".into()) }
+  }
+  fn unplug(&mut self, tablet: bool) {
+    crate::sysseam::fail_reads(if tablet { self.p.tab_r } else { self.p.kbd_r }, libc::ENODEV);
   }
   fn sabotage_reader(&mut self, tablet: bool) {
     // The descriptor number must stay allocated (another worker thread could be handed it the
